@@ -161,6 +161,7 @@ void buildGraph(const GSpec &s, const std::string &wmode, G &g, Model &m) {
         bool present = m.e.count(k) != 0;
         long long x = e.x < 0 ? -e.x : e.x;
         if (e.remove) {
+            ++m.opsHistory;
             if constexpr (T::fam == 'M')
                 g.removeMultiedge(e.i, e.j, 1000000u);
             else
@@ -172,6 +173,8 @@ void buildGraph(const GSpec &s, const std::string &wmode, G &g, Model &m) {
             // value set through the setter, in the orientation given
             if constexpr (T::fam == 'W') {
                 double w = weightOf(x, wmode);
+                m.absHistory += std::fabs((long double)w);
+                ++m.opsHistory;
                 g.setEdgeWeight(e.i, e.j, w);
                 if (!present) {
                     MVal v;
@@ -228,6 +231,8 @@ void buildGraph(const GSpec &s, const std::string &wmode, G &g, Model &m) {
                 m.e[k].k += mult;
         } else {
             double w = weightOf(x, wmode);
+            m.absHistory += std::fabs((long double)w);
+            ++m.opsHistory;
             g.addEdge(e.i, e.j, w);
             if (!present) {
                 MVal v;
@@ -259,10 +264,10 @@ std::string verifyBuilt(const G &g, const Model &m, std::string &observer, std::
     c.fam = m.fam;
     c.exactWeights = exactWeights;
     if (!exactWeights) {
-        long double sum = 0;
+        long double sum = m.absHistory;
         for (auto &p : m.e)
             sum += std::fabs((long double)p.second.w);
-        c.weightTol = (long double)(m.e.size() + 1) * std::ldexp(1.0L, -50) * (1.0L + sum);
+        c.weightTol = (long double)(m.e.size() + m.opsHistory + 1) * std::ldexp(1.0L, -50) * (1.0L + sum);
     }
     if (exactOut)
         *exactOut = obsText(got, true, m.directed);
